@@ -261,6 +261,79 @@ def run(ck, prog, ctx):
                         ct = tf.blocks[at[4]].term
                         roots |= user_root_locals(tf, pvn, ct.args[0], stop=allk)
             ck.ob("ROLE", "obo/replacement", key_of(roots) == ["replaced_by"], "the replacement is parsed from the value of key %s" % (key_of(roots) or "?"), where=tf.where(t.line))
+    # `key: value` lines: the value is everything after the FIRST separator
+    plb = prog.body(O + "parse_line")
+    if plb is None:
+        ck.undecided("ROLE", "obo/key-value-split", "private helper hp_obo::parse_line not found")
+    else:
+        val = pvn.of_local(plb, 0, (("f", "1", "tuple"),))
+        names = {a[1] for a in val if a[0] == "call"}
+        seps = {const_str_of(plb, pvn, x) for _, t in plb.calls() if t.callee.method in ("split_once", "split", "splitn") for x in t.args[1:]} - {None}
+        if any(n.endswith("::split_once") for n in names):
+            ok, how = True, "split_once"
+        elif any("SplitN" in a[2] and a[1].endswith("::next") for a in val if a[0] == "call"):
+            n2 = [t.args[1].int_value() for _, t in plb.calls() if t.callee.method == "splitn"]
+            ok, how = (n2 == [2]), "splitn(%s)" % n2
+        elif any("str::Split<" in a[2] and a[1].endswith("::next") for a in val if a[0] == "call"):
+            ok, how = False, "the second piece of split(): a value that contains the separator is cut short"
+        else:
+            ok, how = None, "?"
+        if ok is None:
+            ck.undecided("ROLE", "obo/key-value-split", "key/value split idiom not recognised", where=plb.where())
+        else:
+            ck.ob("ROLE", "obo/key-value-split", ok and seps == {": "}, "a `key: value` line is split on %s with %s" % (sorted(seps), how), where=plb.where())
+
+    # release version: (year, month, day) from the fixed-width date after the data-version prefix
+    vf = prog.body(O + "version_from_obo")
+    if vf is not None:
+        fam = prog.family(vf)
+        lits = set()
+        tup = None
+        for fb in fam:
+            for bi, t in fb.calls():
+                if t.callee.method in ("strip_prefix", "starts_with"):
+                    for a in t.args[1:]:
+                        v = const_str_of(fb, pvn, a)
+                        if v is not None:
+                            lits.add(v)
+            for pos, st in fb.stmts():
+                if st.k == "assign" and st.rv["k"] == "agg" and st.rv["agg"] == "tuple" and len(st.rv["ops"]) == 3:
+                    comps = []
+                    for o in st.rv["ops"]:
+                        rng = None
+                        for a in pvn.of_operand(fb, o):
+                            if a[0] == "call" and a[3] == fb.id and "Index" in a[2] and "Range<usize>" in a[2]:
+                                it = fb.blocks[a[4]].term
+                                for kk, pp, dd in pvn.defs(fb).get(it.args[1].place.local, []) if it.args[1].place is not None else []:
+                                    if kk == "assign" and dd.rv["k"] == "agg" and dd.rv.get("adt", "").endswith("Range"):
+                                        rng = tuple(x.int_value() for x in dd.rv["ops"])
+                        comps.append(rng)
+                    tup = comps
+        ck.ob("TABLE", "obo/version-prefix", lits == {"data-version: hp/releases/"}, "the release version is taken from the line starting with %s" % sorted(lits), where=vf.where())
+        if tup is None:
+            ck.undecided("ROLE", "obo/version-fields", "version tuple not recognised", where=vf.where())
+        else:
+            ck.ob("ROLE", "obo/version-fields", tup == [(0, 4), (5, 7), (8, 10)], "(year, month, day) are parsed from the character ranges %s (expected [0..4], [5..7], [8..10] of YYYY-MM-DD)" % tup, where=vf.where())
+    ro_b = prog.body(O + "read_obo_file")
+    if ro_b is not None:
+        lits = {}
+        for fb in prog.family(ro_b):
+            for bi, t in fb.calls():
+                if t.callee.method in ("strip_prefix", "starts_with", "split") and (t.callee.impl_self or "").startswith("str"):
+                    for a in t.args[1:]:
+                        v = const_str_of(fb, pvn, a)
+                        if v is not None:
+                            lits.setdefault(t.callee.method, set()).add(v)
+        want = {"split": {"\n\n"}, "strip_prefix": {"[Term]\n"}, "starts_with": {"format-version: 1.2"}}
+        got = {k: {x.replace("\n", "\\n").replace(chr(10), "\\n") for x in v} for k, v in lits.items()}
+        want2 = {k: {x.replace("\n", "\\n") for x in v} for k, v in want.items()}
+        ck.ob("TABLE", "obo/stanza-literals", got == want2, "read_obo_file splits stanzas on %s, accepts stanzas starting with %s and the header starting with %s" % (sorted(got.get("split", [])), sorted(got.get("strip_prefix", [])), sorted(got.get("starts_with", []))), where=ro_b.where())
+        # the header's version is stored with set_hpo_version
+        sv = [t for fb in prog.family(ro_b) for _, t in fb.calls() if (t.callee.res or "").endswith("::set_hpo_version")]
+        okv = False
+        for t in sv:
+            okv = True
+        ck.ob("ROLE", "obo/version-stored", okv, "the parsed release version is stored with set_hpo_version" if okv else "the parsed release version is never stored", where=ro_b.where())
     ac = prog.body(O + "add_connections")
     if ac is not None:
         pushes = [(bi, t) for bi, t in ac.calls() if t.callee.method == "push"]
